@@ -1704,3 +1704,21 @@ TWINS = [
       '        elif key.endswith(("min", "max")):\n'
       '            # most-general type is a number')),
 ]
+
+# mutants that re-introduce the repaired defects (apply to the fixed tree)
+MUTANTS = list(MUTANTS) + [
+    ("np.bool_ rejected again (F11 returns)",
+     "dclab/definitions/meta_parse.py",
+     ("(str, bool, np.bool_)) or value == 0:", "(str, bool)) or value == 0:"),
+     "R11.5"),
+    ("zeros dropped again (F11c returns)",
+     "dclab/definitions/meta_parse.py",
+     ("        if isinstance(it, str) and not it.strip():\n"
+      "            # ignore empty entries (e.g. from \"[]\" or a trailing "
+      "comma)\n            continue\n        outlist.append(fint(it))",
+      "        if it:\n            outlist.append(fint(it))"), "R11.5"),
+    ("in-place union through the raw dict (F11b returns)",
+     "dclab/rtdc_dataset/config.py",
+     ("        self.update(other)\n        return self",
+      "        self.data.update(other)\n        return self"), "R11.1"),
+]
